@@ -8,18 +8,30 @@ Open Scope N_scope.
 
 Inductive wrapk := WNone | WKeepPtr | WAddr.
 
+(* how an argument of a called function / method is supplied *)
+Inductive argsrc := ArgSource | ArgCtx (t : ty) | ArgConv.
+Inductive callee := CFn (f : N) | CMeth (m : N).
+
 (* which part of the source a struct field is filled from (builder/struct.go mapField) *)
 Inductive selector :=
 | SelWhole                                            (* goverter:map . F *)
-| SelPath (steps : list (bool * N)) (w : wrapk).      (* per element: nil-guarded deref first?, field index;
+| SelPath (steps : list (bool * N)) (w : wrapk)       (* per element: nil-guarded deref first?, field index;
                                                          w: how the result is wrapped when a pointer was crossed *)
+| SelMeth (steps : list (bool * N)) (rd : bool) (f : N) (args : list argsrc) (fallible : bool) (w : wrapk).
+                                                      (* the path ends in an argument-less method of the value reached by
+                                                         steps (rd: after a nil-guarded dereference): custom function f called on that value (receiver) *)
 
 Inductive vplan :=
 | PId                                   (* the source expression itself, possibly cast: Basic, empty struct *)
 | PShare                                (* SkipCopy: source used as is (aliases) *)
 | PRef (alias : bool) (v : vplan)       (* x := v; &x   (alias: &source-lvalue, no copy) *)
-| PCall (m : N)                         (* declared or generated method m applied to the source *)
+| PCall (m : N)                         (* declared or generated method m applied to the source (no context, no error) *)
+| PCallX (c : callee) (args : list argsrc) (fallible : bool)
+                                        (* custom function, or method with context arguments / error result:
+                                           x[, err] := f(args); if err != nil { return ..., wrap(err) } *)
 | POfAssign (t : ty) (a : aplan)        (* var x T; a(x); x *)
+| PInit (init : vplan) (to_ptr : bool) (a : aplan)
+                                        (* default FUNC: x := init(source) [; x := &x]; a(x); x *)
 | PMakeList (elem : ty) (a : aplan)     (* x := make([]T, len(source)); a(x); x — list from a fixed array *)
 with aplan :=
 | ASet (v : vplan)                      (* lhs = v *)
@@ -30,18 +42,29 @@ with aplan :=
 | AMap (k : vplan) (v : vplan)          (* if s != nil { lhs = make; for k, v := range s { lhs[k(k)] = v(v) } } *)
 | AStruct (fs : list fplan)             (* one entry per target field, in declaration order *)
 | AIfNotNil (a : aplan)                 (* update with pointer source: if s != nil { a on deref s } *)
+| ADerefTgt (a : aplan)                 (* a on *lhs (default FUNC returning / producing a pointer) *)
 with fplan :=
 | FSkip                                 (* field not assigned *)
-| FAssign (sel : selector) (zero_guard : bool) (a : aplan).
+| FAssign (name : rstr) (sel : selector) (zero_guard : bool) (a : aplan)   (* target field name: error path element *)
+| FCall (name : rstr) (sel : option selector) (zero_guard : bool) (v : vplan).
+                                        (* map [SRC] F | FUNC: lhs.F = FUNC(selected source part) *)
 
-Inductive body := BVal (p : vplan) | BUpd (a : aplan).
+Inductive body := BVal (p : vplan) | BUpd (a : aplan)
+  | BTail (p : vplan).   (* return f(args): the body delegates to an extend function; its error is returned as is *)
 
 Record gmethod := {
   g_name : rstr; g_src : ty; g_tgt : ty;
   g_explicit : bool; g_dirty : bool; g_update : bool;
   g_conf : mconf;
   g_origin : list N;
+  g_ctx : list ty;          (* context parameters (declared, or retrofitted on generated methods) *)
+  g_ret_err : bool;         (* has an error result *)
   g_body : option body;
   g_types : list ty        (* every type the emitted body and signature render (xtype TypeAsJen / ZeroValue): decides the imports *)
 }.
 Definition table := list gmethod.
+
+(* custom functions (extend, map | FUNC, default FUNC) *)
+Record fdecl := { fd_name : rstr; fd_pkg : N; fd_src : option ty; fd_ctx : list ty; fd_conv : bool; fd_tgt : ty; fd_err : bool;
+                  fd_args : list argsrc (* parameters in declared order *) }.
+Definition ftable := list fdecl.
